@@ -3,8 +3,8 @@ CONFIG = {
     "level_text": "Lean theorems (kernel-checked, no sorry/axioms) over unbounded naturals (Go: big.Int) for every pool state, amount and history: deposits mint the floor of the pro-rata share count (1:1 on an empty pool, refused on zero balance with outstanding shares), redemptions pay the floor of the pro-rata worth and redeeming everything empties the pool, neither a deposit nor a redemption lowers the share price so nobody's redeemable value falls through another's operation, no round trip and no interleaving of own deposits/redemptions yields a profit (potential-function argument over arbitrary histories with other delegators, rewards and slashes), the price falls only by slashing, slashing takes the floor of the same fraction from the active and debonding pool (total at most the penalty, value conserved into the common pool), a reclaim moves exactly the redeemed stake into the debonding pool, and a queued debonding delegation is paid exactly once, at the first epoch transition at or after its end epoch and never before. The model is tied to the Go source by a regenerated translation of the straight-line big-integer functions (bridge lemmas) and by the sharedrv correspondence on adversarial integers. The epoch-transition loop over the debonding queue as the code performs it (OasisModel/Staking/DebondLoop.lean: a store with explicit load/save, delegator and escrow account loaded fresh per entry, aliasing when they are the same account; OasisProofs/Props/C15DebondLoop.lean): the loop equals the functional fold of the ledger model over the entries for every store and entry list, error outcomes included (loop_refines_fold, onEpochChange_refines, loop_refines_debst), every entry's payout reaches its delegator's general balance exactly once at the price of the escrow's debonding pool at that point and balances are conserved (paid_exactly_once, payout_at_current_price, loop_conserves, loop_frame); a per-call cache of escrow accounts loses a payout on entries (D1→E),(E→V),(D3→E) (cached_escrow_loses_payout) and is harmless exactly when no escrow address is also a delegator address (loopCached_eq_loop_of_disjoint); tied by the regenerated statement list of onEpochChange (Props/C05LoopFacts.lean).",
     "technique": "Lean 4 proof over a Nat model + go/ast translation of the arithmetic with bridge lemmas + correspondence and spec-on-implementation with the real SharePool",
     "models": ["share", "ledger"],
-    "regen": [{"kind": "quantity", "out": "SharePoolGen.lean"}, {"kind": "stmtfacts", "out": "StmtFactsStakingloops.lean", "args": ["stakingloops"]}],
-    "extra_theorem_files": [{"file": "OasisProofs/Props/C15DebondLoop.lean", "namespace": "OasisProofs.C15DebondLoop"}, {"file": "OasisProofs/Props/C05LoopFacts.lean", "namespace": "OasisProofs.C05LoopFacts"}],
+    "regen": [{"kind": "muxfacts", "out": "MuxFacts.lean"}, {"kind": "quantity", "out": "SharePoolGen.lean"}, {"kind": "stmtfacts", "out": "StmtFactsStakingloops.lean", "args": ["stakingloops"]}],
+    "extra_theorem_files": [{"file": "OasisProofs/Props/AppStateFacts.lean", "namespace": "OasisProofs.AppStateFacts"}, {"file": "OasisProofs/Props/C15DebondLoop.lean", "namespace": "OasisProofs.C15DebondLoop"}, {"file": "OasisProofs/Props/C05LoopFacts.lean", "namespace": "OasisProofs.C05LoopFacts"}],
     "lean_sources": ["OasisModel/Quantity.lean", "OasisModel/Staking/SharePool.lean", "OasisModel/Staking/Debond.lean",
                      "OasisModel/Staking/ShareDriver.lean", "OasisModel/Staking/Commission.lean", "OasisModel/Staking/Ledger.lean", "OasisModel/Staking/LedgerDriver.lean",
                      "OasisModel/Governance/Tally.lean", "OasisModel/Proto.lean", "OasisProofs/Helpers/Staking.lean"],
